@@ -196,6 +196,8 @@ func c19Ops() []c19op {
 			return fmt.Sprint(lib.SortedKeys(rs)), err
 		}},
 		{"ProcessEvent(plain)", false, false, true, ev(`{"e":"1"}`)},
+		{"ProcessEvent(trigger! r1)", false, false, true, ev(`{"trigger!":"r1"}`)},
+		{"ProcessEvent(trigger! rw)", true, false, true, ev(`{"trigger!":"rw","w":"1"}`)},
 		{"ProcessEvent(action Env.AddFact)", true, false, true, ev(`{"w":"1"}`)},
 		{"ProcessEvent(action Env.RemFact)", true, false, true, ev(`{"x":"1"}`)},
 		{"Query(pattern)", false, false, true, func(ctx *core.Context, loc *core.Location) (string, error) {
@@ -589,7 +591,7 @@ func init() {
 	lib.Register(&lib.Check{
 		ID:    "C19",
 		Level: "model_checking",
-		Rule: "exhaustive product: 16 protection states (write key x read key x read-only x disabled) x 13 caller contexts (no/wrong/right write key x no/wrong/right read key, plus SubContexts) x 27 operations (whole Location API, Env.* location functions from RunJavascript, events whose rule actions mutate) x 4 set-up histories x {indexed, linear} x {core.Location, location obtained from sys.System}; oracle from the statement with a privileged before/after snapshot and an unprotected twin; " +
+		Rule: "exhaustive product: 16 protection states (write key x read key x read-only x disabled) x 13 caller contexts (no/wrong/right write key x no/wrong/right read key, plus SubContexts) x 29 operations (whole Location API, Env.* location functions from RunJavascript, events whose rule actions mutate) x 4 set-up histories x {indexed, linear} x {core.Location, location obtained from sys.System}; oracle from the statement with a privileged before/after snapshot and an unprotected twin; " +
 			"states = (driver, state, set-up, protection, caller) tuples, transitions = operations executed; non-trivial = distinct protected cases whose outcome matched",
 		Assumptions: []string{
 			"classification of operations as mutating / revealing as argued at the top of c19.go; RuleEnabled and GetParents are unclassified",
